@@ -178,6 +178,9 @@ func cmdCheck(args []string) int {
 	var residuals []*Oblig
 	residualOf := map[*Oblig]*Oblig{}
 	for _, o := range all {
+		if _, ok := knownBy[o.Name]; ok {
+			o.Budget = 4
+		}
 		if k, ok := knownBy[o.Name]; ok && k.Except != "" {
 			r, err := o.gen.residual(o, k.Except)
 			if err != nil {
@@ -336,6 +339,7 @@ func (g *FnGen) residual(o *Oblig, except string) (r *Oblig, err error) {
 	c.Name = o.Name + "/residual"
 	c.Extra = append(append([]string{}, o.Extra...), t)
 	c.Status = ""
+	c.Budget = 0
 	return &c, nil
 }
 
